@@ -341,3 +341,60 @@ Section Wire.
   Definition client_reads (w rc : nat) (sc : list nat) (order : list (nat * A)) :=
     read_all complete (rawmark_of k) (shape_of k) rc sc (wire_of w (map encR (map (serve f) order))).
 End Wire.
+
+(* ------------------------------------------------------------------ *)
+(* decoder depth over the life of a connection                          *)
+
+(* The Decoder of an rpcCodec lives as long as the connection and Decode does not
+   reset d.depth (only Reset does).  depthIncr (decode.base.go:745): d.depth++, error
+   when d.depth >= maxdepth; every mapStart/arrayStart inside Decode is matched by its
+   mapEnd/arrayEnd (depthDecr).  Decoder.readArrayStart, used only by
+   parseCustomHeader, calls the driver's ReadArrayStart directly: no depth change
+   ([spec_mark_leaks] = false).  [leak] = it goes through arrayStart (depthIncr) with
+   no matching arrayEnd: the depth grows by one per MESSAGE. *)
+Inductive dres := DOk (depth : nat) | DErr.
+
+(* one Decode of a value whose containers nest n deep, starting at depth d *)
+Definition dec_value (maxd d n : nat) : dres :=
+  if (0 <? n) && (maxd <=? d + n) then DErr else DOk d.
+
+Definition dec_mark (leak : bool) (maxd d : nat) : dres :=
+  if leak then (if maxd <=? S d then DErr else DOk (S d)) else DOk d.
+
+Fixpoint dec_values (maxd d : nat) (ns : list nat) : dres :=
+  match ns with
+  | [] => DOk d
+  | n :: ns' =>
+      match dec_value maxd d n with
+      | DOk d' => dec_values maxd d' ns'
+      | DErr => DErr
+      end
+  end.
+
+(* one message: the nesting of each value slot, in reading order *)
+Definition dec_frame (leak : bool) (k : rpckind) (maxd d : nat) (ns : list nat) : dres :=
+  match k with
+  | GoRpc => dec_values maxd d ns
+  | SpecRpc =>
+      match dec_mark leak maxd d with
+      | DOk d' => dec_values maxd d' ns
+      | DErr => DErr
+      end
+  end.
+
+(* all the messages one codec reads on a connection: index of the first message that
+   fails with "maximum decoding depth exceeded", if any *)
+Fixpoint dec_conn (leak : bool) (k : rpckind) (maxd d : nat) (frames : list (list nat)) (i : nat)
+  : option nat :=
+  match frames with
+  | [] => None
+  | ns :: frames' =>
+      match dec_frame leak k maxd d ns with
+      | DOk d' => dec_conn leak k maxd d' frames' (S i)
+      | DErr => Some i
+      end
+  end.
+
+Definition spec_mark_leaks : bool := false.
+Definition mark_leaks_of (k : rpckind) : bool :=
+  match k with GoRpc => false | SpecRpc => spec_mark_leaks end.
